@@ -12,8 +12,18 @@ MUTANTS = [
     {'name': 'clayton-pd-any-to-all', 'rule': 'D3.rows', 'file': C, 'old': "if (A == np.inf).any():", 'new': "if (A > 1e300).any():"},
     {'name': 'gumbel-pd-batch-mean', 'rule': 'D3.rows', 'file': GU, 'old': "            return p1 * p2 * p3 / V", 'new': "            return p1 * p2 * p3 / V.mean()"},
     {'name': 'family-overrides-log-pdf', 'rule': 'D1.log', 'file': F, 'old': "    def _g(self, z):", 'new': "    def log_probability_density(self, X):\n        return np.log(np.abs(self.probability_density(X)) + 1e-12)\n\n    def _g(self, z):"},
+    {'name': 'gumbel-independence-density-uv', 'rule': 'D4.values', 'file': GU, 'old': "            return np.ones(len(U))\n\n        else:\n            a = np.power(U * V, -1)", 'new': "            return U * V\n\n        else:\n            a = np.power(U * V, -1)"},
+    {'name': 'gumbel-independence-h-returns-v', 'rule': 'D4.values', 'file': GU, 'old': "        if self.theta == 1:\n            return U\n\n        else:\n            t1", 'new': "        if self.theta == 1:\n            return V\n\n        else:\n            t1"},
+    {'name': 'independence-h-returns-v', 'rule': 'D4.values', 'file': 'bivariate/independence.py', 'old': "        U, _ = split_matrix(X)\n        return U", 'new': "        _, V = split_matrix(X)\n        return V"},
+    {'name': 'clayton-density-sign', 'rule': 'D4.values', 'file': C, 'old': "        a = (self.theta + 1) * np.power(U * V, -(self.theta + 1))", 'new': "        a = -(self.theta + 1) * np.power(U * V, -(self.theta + 1))"},
+    {'name': 'frank-density-sign', 'rule': 'D4.values', 'file': F, 'old': "            num = (-self.theta * self._g(1)) * (1 + self._g(U + V))", 'new': "            num = (self.theta * self._g(1)) * (1 + self._g(U + V))"},
+    {'name': 'gumbel-density-sign', 'rule': 'D4.values', 'file': GU, 'old': "            d = 1 + (self.theta - 1) * np.power(tmp, -1.0 / self.theta)", 'new': "            d = -1 - (self.theta - 1) * np.power(tmp, -1.0 / self.theta)"},
+    {'name': 'clayton-h-negated', 'rule': 'D4.values', 'file': C, 'old': "        return A * h\n", 'new': "        return -A * h\n"},
+    {'name': 'gumbel-h-complement', 'rule': 'D4.values', 'file': GU, 'old': "            return p1 * p2 * p3 / V\n", 'new': "            return -p1 * p2 * p3 / V\n"},
 ]
 REWRITES = [
     {'name': 'frank-pdf-commuted', 'file': F, 'old': "aux = self._g(U) * self._g(V) + self._g(1)", 'new': "aux = self._g(1) + self._g(V) * self._g(U)"},
     {'name': 'clayton-pdf-operators', 'file': C, 'old': "        a = (self.theta + 1) * np.power(U * V, -(self.theta + 1))", 'new': "        a = (self.theta + 1) * (V * U) ** (-(self.theta + 1))"},
+    {'name': 'gumbel-independence-ones-like', 'file': GU, 'old': "            return np.ones(len(U))\n\n        else:\n            a = np.power(U * V, -1)", 'new': "            return np.ones_like(U)\n\n        else:\n            a = 1 / (U * V)"},
+    {'name': 'clayton-h-single-expression', 'file': C, 'old': "        B = np.power(V, -self.theta) + np.power(U, -self.theta) - 1\n        h = np.power(B, (-1 - self.theta) / self.theta)\n        return A * h", 'new': "        B = U ** (-self.theta) + V ** (-self.theta) - 1\n        return A * B ** (-(1 + self.theta) / self.theta)"},
 ]
